@@ -342,3 +342,32 @@ pub open spec fn arr_chain(es: Seq<Box<dyn Expression>>, ctxs: Seq<GlobalDataLoc
     &&& vs.len() <= es.len()
     &&& forall|j: int| 0 <= j < vs.len() ==> (#[trigger] es[j]).sem(ctxs[j], ctxs[j + 1], allow_undefined, Ok::<DataArc, String>(vs[j]))
 }
+
+impl GlobalDataLock {
+    /// the session's variables (`context.data`, a DataStore): name -> handle of the value cell
+    pub uninterp spec fn vars(&self) -> Map<Seq<char>, DataArc>;
+}
+
+/// R19: `context.data.get(&name)` (DataStore::get): the handle bound to the name, if any; bound handles point into the heap
+#[verifier::external_body]
+pub fn verif_var_get(context: &GlobalDataLock, name: &String) -> (r: Option<DataArc>)
+    ensures
+        r == (if context.vars().contains_key(name@) { Some(context.vars()[name@]) } else { None::<DataArc> }),
+        r is Some ==> context.cells().contains_key(r.unwrap().cell()),
+{
+    unimplemented!()
+}
+
+/// R19: `context.data.set_undefined(name, d)` (DataStore::set_undefined) for a name that is not bound: binds it to a new cell
+#[verifier::external_body]
+pub fn verif_var_declare(context: &mut GlobalDataLock, name: String, d: Data)
+    requires
+        !old(context).vars().contains_key(name@),
+    ensures
+        final(context).vars().dom() == old(context).vars().dom().insert(name@),
+        forall|k: Seq<char>| old(context).vars().contains_key(k) ==> final(context).vars()[k] == old(context).vars()[k],
+        !old(context).cells().contains_key(final(context).vars()[name@].cell()),
+        final(context).cells() == old(context).cells().insert(final(context).vars()[name@].cell(), d),
+{
+    unimplemented!()
+}
